@@ -4065,3 +4065,137 @@ func E9MovedNodeHeight(c *core.Ctx, r *core.Report) {
 		r.Fail("E9.moved-node-height", key, c.Pos(movedAt), fmt.Sprintf("`%s` takes the removed node's place but keeps its old height: neither is its height updated, nor does Remove walk every ancestor up to the root (rebalance stops climbing where a height is unchanged, below the moved node); a later insertion or removal panics with \"Tree too far out of shape!\"", moved.Name()))
 	}
 }
+
+// E9DirectionFallbackSymmetric: the end-point fallbacks of cubicBezierDirection mirror each other.
+func E9DirectionFallbackSymmetric(c *core.Ctx, r *core.Report) {
+	r.Rule("E9.direction-fallback-symmetric", "cubicBezierDirection replaces a vanishing derivative at an end point by the chord to the next distinct control point. Reversing a curve (p0↔p3, p1↔p2, t ↦ 1−t) reverses its direction, so the chords tried at t = 1 are the mirror images of those tried at t = 0, in the same order: p2−p0 then p3−p0 at the start, p3−p1 then p3−p0 at the end. The chords assigned on the paths open for t = 0 and for t = 1 (tests of t against 0 and 1 decided, other tests taken both ways) are collected and compared under that mirror. With the start's chords used at the end as well, a cubic whose last control point coincides with its end point and that overshoots the level of that point leaves the vertex with the wrong vertical sense, and Windings drops the crossing there")
+	p := c.MustPkg("")
+	info := p.TypesInfo
+	fd := core.MustFuncDecl(p, "cubicBezierDirection")
+	var pts []types.Object
+	var tObj types.Object
+	for _, f := range fd.Type.Params.List {
+		for _, nm := range f.Names {
+			o := info.Defs[nm]
+			if isNamed(o.Type(), "tdewolff/canvas", "Point") {
+				pts = append(pts, o)
+			} else {
+				tObj = o
+			}
+		}
+	}
+	if len(pts) != 4 || tObj == nil {
+		panic(core.Infra("cubicBezierDirection: expected four points and a parameter"))
+	}
+	idx := func(e ast.Expr) int {
+		if id, ok := core.Unparen(e).(*ast.Ident); ok {
+			for i, o := range pts {
+				if core.ObjOf(info, id) == o {
+					return i
+				}
+			}
+		}
+		return -1
+	}
+	collect := func(tval int64) [][2]int {
+		var out [][2]int
+		env := func(e ast.Expr) tri {
+			var a, b ast.Expr
+			neg := false
+			switch x := e.(type) {
+			case *ast.CallExpr:
+				if f := core.CalleeOf(info, x); f != nil && f.Name() == "Equal" && len(x.Args) == 2 {
+					a, b = x.Args[0], x.Args[1]
+				}
+			case *ast.BinaryExpr:
+				if x.Op == token.EQL || x.Op == token.NEQ {
+					a, b, neg = x.X, x.Y, x.Op == token.NEQ
+				}
+			}
+			if a == nil {
+				return tUnknown
+			}
+			for _, pr := range [][2]ast.Expr{{a, b}, {b, a}} {
+				if id, ok := core.Unparen(pr[0]).(*ast.Ident); ok && core.ObjOf(info, id) == tObj {
+					if v := core.ConstVal(info, pr[1]); v != nil {
+						f, _ := constant.Float64Val(constant.ToFloat(v))
+						return triOf((f == float64(tval)) != neg)
+					}
+				}
+			}
+			return tUnknown
+		}
+		var walk func(list []ast.Stmt)
+		visitAssign := func(as *ast.AssignStmt) {
+			for _, rhs := range as.Rhs {
+				if call, ok := core.Unparen(rhs).(*ast.CallExpr); ok && len(call.Args) == 1 {
+					if se, ok := call.Fun.(*ast.SelectorExpr); ok && se.Sel.Name == "Sub" {
+						if a, b := idx(se.X), idx(call.Args[0]); a >= 0 && b >= 0 {
+							out = append(out, [2]int{a, b})
+						}
+					}
+				}
+			}
+		}
+		walk = func(list []ast.Stmt) {
+			for _, st := range list {
+				switch x := st.(type) {
+				case *ast.AssignStmt:
+					visitAssign(x)
+				case *ast.IfStmt:
+					if as, ok := x.Init.(*ast.AssignStmt); ok {
+						visitAssign(as)
+					}
+					switch evalBool(info, x.Cond, env) {
+					case tTrue:
+						walk(x.Body.List)
+					case tFalse:
+						switch e := x.Else.(type) {
+						case *ast.BlockStmt:
+							walk(e.List)
+						case *ast.IfStmt:
+							walk([]ast.Stmt{e})
+						}
+					default:
+						walk(x.Body.List)
+						switch e := x.Else.(type) {
+						case *ast.BlockStmt:
+							walk(e.List)
+						case *ast.IfStmt:
+							walk([]ast.Stmt{e})
+						}
+					}
+				case *ast.BlockStmt:
+					walk(x.List)
+				}
+			}
+		}
+		walk(fd.Body.List)
+		return out
+	}
+	s0, s1 := collect(0), collect(1)
+	mirror := func(s [][2]int) [][2]int {
+		var out [][2]int
+		for _, ch := range s {
+			out = append(out, [2]int{3 - ch[1], 3 - ch[0]})
+		}
+		return out
+	}
+	show := func(s [][2]int) string {
+		var parts []string
+		for _, ch := range s {
+			parts = append(parts, fmt.Sprintf("p%d−p%d", ch[0], ch[1]))
+		}
+		return strings.Join(parts, ", ")
+	}
+	key := "canvas.cubicBezierDirection|chords at t = 1 mirror those at t = 0"
+	r.Count("E9.direction-fallback-symmetric", 1)
+	switch {
+	case len(s0) == 0 || len(s1) == 0:
+		r.Fail("E9.direction-fallback-symmetric", key, c.Pos(fd.Pos()), fmt.Sprintf("no fallback chord found for t = 0 (%s) or t = 1 (%s)", show(s0), show(s1)))
+	case show(mirror(s0)) != show(s1):
+		r.Fail("E9.direction-fallback-symmetric", key, c.Pos(fd.Pos()), fmt.Sprintf("at t = 0 the chords tried are %s, whose mirror images are %s; at t = 1 the function tries %s: a cubic that arrives at its end point with p2 = p3 is given the direction of another chord, with the opposite vertical sense when it overshoots the level of that point (`M0 0C0 15 10 10 10 10L10 0z`, Windings(5,10) is 0 instead of −1)", show(s0), show(mirror(s0)), show(s1)))
+	default:
+		r.OK("E9.direction-fallback-symmetric", key, c.Pos(fd.Pos()), show(s0)+" | "+show(s1))
+	}
+}
